@@ -16,6 +16,7 @@ from sim.disk import SimDisk
 from .c07 import warm as _warm07
 
 ID = "C20"
+GUARD_KERNELS = True
 SHRINK_LISTS = ()
 SHRINK_MIN = {"nchans": 1, "nbits": 1, "gulp": 1, "tfactor": 1, "ffactor": 1, "nsub": 1, "batch_size": 1, "chanpersub": 2}
 WRITERS = T.NAMES + ["clean_rfi", "to_file", "to_tim", "to_spec"]
@@ -266,6 +267,8 @@ def execute(sc, ctx) -> None:
                 raised = SimCrash(str(e))
             except SimLivelock as e:
                 raise mk_for(point)("livelock", str(e)) from None
+            except Violation:
+                raise
             except Exception as e:  # noqa: BLE001
                 raised = (type(e).__name__, repr(e)[:200])
             fired = bool(sim.faults[0].get("_done"))
